@@ -259,6 +259,45 @@ def tlc_generated_store_cases(tier):
     return cases, len(rows)
 
 
+def tlc_generated_registry_cases(tier):
+    """every valid call sequence of the bounded registry alphabet (GEN_Registry.tla), driven through lib.rs with a
+    stand-alone Store per id in lock-step"""
+    rows = tlc_generate("GEN_Registry", "GEN_Registry_q.cfg" if tier == "quick" else "GEN_Registry_t.cfg", "gen_reg_" + tier)
+    cases = []
+    for k, row in enumerate(rows):
+        la = gen.LANGS[k % len(gen.LANGS)]
+        lb = gen.LANGS[(k // len(gen.LANGS) + 1 + k) % len(gen.LANGS)]
+        lang_of = {1: la, 2: lb}
+        c = gen.Case("C20", "tlc-registry")
+        nrid = 1
+        for op in row["ops"]:
+            i = op["id"]
+            T = STORE_TITLES[lang_of[i]]
+            if op["op"] == "create":
+                c.op(op="r_create", id=i, lang=lang_of[i])
+                c.op(op="new", sid=1000 + i, lang=lang_of[i])
+            elif op["op"] == "destroy":
+                c.op(op="r_destroy", id=i)
+                c.op(op="drop", sid=1000 + i)
+            elif op["op"] == "add":
+                t = T[1] if op["t"] == 1 else T[3]
+                c.op(op="r_add", id=i, rid=nrid, title=cps(t), rating=nrid % 3)
+                c.op(op="add", sid=1000 + i, id=nrid, title=cps(t), rating=nrid % 3)
+                nrid += 1
+            elif op["op"] == "limit":
+                c.op(op="r_limit", id=i, limit=op["n"])
+                c.op(op="limit", sid=1000 + i, limit=op["n"])
+            elif op["op"] == "markers":
+                c.op(op="r_markers", id=i, l=gen.SENT_L, r=gen.SENT_R)
+                c.op(op="markers", sid=1000 + i, l=gen.SENT_L, r=gen.SENT_R)
+            else:
+                q = "" if op["q"] == 0 else T[1][:2]
+                c.search(1000 + i, q, tag="sa%d" % i, want=["qtok"], rep=1)
+                c.op(op="r_search", id=i, q=cps(q))
+        cases.append(c)
+    return cases, len(rows)
+
+
 # ------------------------------------------------------------------------------------------------ verdict
 def load_known():
     if os.path.exists(KNOWN):
@@ -561,6 +600,11 @@ def run_property(prop, tier, seed):
         m2 = run_cases(prop + "x", more, ck, sh, stage_budget=600)
         merge_into(merged, m2)
         merged["escalated"] = True
+    if prop == "C20":
+        gc, n = tlc_generated_registry_cases(tier)
+        m2 = run_cases(prop + "g", gc, ck, None, spec="TV_Store")
+        m2["tlc_generated_cases"] = n
+        merge_into(merged, m2)
     if prop in ("C10", "C12"):
         # specification -> implementation: every history of the bounded Store machine, replayed on a real Store
         gc, n = tlc_generated_store_cases(tier)
